@@ -70,6 +70,27 @@ def iban_generic_only(rng, k):
     return out
 
 
+def prefixed_vat_numbers(rng, k):
+    """Country-prefixed VAT numbers of every package that has a vat module (member states or not)."""
+    from stdnum.util import get_cc_module
+    out = []
+    pkgs = sorted({n.split('.')[0] for n in C.number_modules() if '.' in n})
+    for pkg in pkgs:
+        cc = pkg.rstrip('_')
+        m = get_cc_module(cc, 'vat')
+        if m is None:
+            continue
+        name = m.__name__[len('stdnum.'):]
+        for v in C.corpus(name, limit=k, rng=rng):
+            try:
+                c = m.compact(v)
+            except Exception:  # noqa: B902
+                continue
+            for prefix in ((cc.upper(),) if cc != 'gr' else ('GR', 'EL')) + (('XI',) if cc == 'gb' else ()):
+                out.append(c if c.upper().startswith(prefix) else prefix + c)
+    return out
+
+
 def universe(rng, modules, per_module):
     """List of call specs over the given modules."""
     mods = C.number_modules()
@@ -88,6 +109,8 @@ def universe(rng, modules, per_module):
         args.append('')
         if name == 'iban':
             args += iban_generic_only(rng, 12)
+        if name in ('eu.vat', 'vatin'):
+            args += prefixed_vat_numbers(rng, 2)
         for a in args:
             for fname in fns:
                 specs.append({'module': name, 'func': fname, 'args': [a]})
@@ -327,15 +350,37 @@ def thread_work(shard, tier, viols, counters, samples, keys, sets):
     for t in range(ntrials):
         n = rng.choice((2, 4, 8, 8, 16))
         plans = []
+        walk_family = False
+        general = [s for s in specs if s['func'] != 'number_module_names']
         for _ in range(n):
             k = rng.randrange(6, 30)
-            plan = rng.sample(specs, min(k, len(specs)))
+            plan = rng.sample(general, min(k, len(general)))
             plans.append(plan)
         # half of the trials: all threads start with the same cold call (maximum contention)
         if t % 2 == 0:
-            first = rng.choice(specs)
+            first = rng.choice(general)
             for p in plans:
                 p.insert(0, first)
+        # every third trial is focused on one family of shared state: all threads hammer it in random order
+        if t % 3 == 1:
+            fam = rng.choice(['luhn', 'modules', 'iban', 'vat', 'registries'])
+            if fam == 'luhn':
+                group = [s for s in specs if s['module'] in ('luhn', 'iso7064.mod_37_2')]
+            elif fam == 'modules':
+                group = [s for s in specs if s['func'] in ('number_module_names', 'get_cc_module_name')]
+            elif fam == 'iban':
+                group = [s for s in specs if s['module'].endswith('iban')]
+            elif fam == 'vat':
+                group = [s for s in specs if s['module'] in ('eu.vat', 'vatin')]
+            else:
+                group = [s for s in specs if s['func'] in ('info', 'split', 'format', 'get_manufacturer', 'get_birth_place', 'get_campus', 'get_label')]
+            plans = []
+            for _ in range(n):
+                plan = [rng.choice(group) for _ in range(60)]
+                if fam == 'modules':
+                    walk_family = True
+                    plan.insert(0, [s for s in group if s['func'] == 'number_module_names'][0])
+                plans.append(plan)
         spec = {'seed': '%d:%s:%d' % (C.SEED, shard['name'], t), 'nthreads': n, 'plans': plans,
                 'yieldp': rng.choice((0.0, 0.01, 0.05, 0.2))}
         with tempfile.NamedTemporaryFile('w', suffix='.json', delete=False, dir=os.path.join(C.VERIF, 'out', 'C13')) as f:
@@ -357,6 +402,10 @@ def thread_work(shard, tier, viols, counters, samples, keys, sets):
             counters['thread_trials_failed_to_report'] += 1
             sets.setdefault('trial_errors', set()).add(p.stderr.decode()[-300:])
             continue
+        if res.get('harness_errors'):
+            counters['thread_trials_failed_to_report'] += 1
+            sets.setdefault('trial_errors', set()).add(str(res['harness_errors'])[:300])
+            continue
         counters['thread_trials'] += 1
         counters['line_events'] += res['stats']['line_events']
         counters['yields_injected'] += res['stats']['yields']
@@ -369,6 +418,9 @@ def thread_work(shard, tier, viols, counters, samples, keys, sets):
             add(viols, 'C13|threads|hang', 'threads %r did not finish within 120 s' % res['hung'], {'kind': 'thread', 'trial': spec})
         for msg in res['invariants']:
             kind = 'registry-differs' if msg.startswith('registry') else 'country-module-cache-differs'
+            if walk_family and kind == 'country-module-cache-differs' and ' is None ' in msg:
+                add(viols, 'C13|threads|import-deadlock-error', msg, {'kind': 'thread', 'trial': spec})
+                continue
             add(viols, 'C13|cache-invariant|%s|threads' % kind, 'after a %d-thread cold start: %s' % (n, msg), {'kind': 'thread', 'trial': spec})
         for ti, out in enumerate(res['results']):
             if out is None:
@@ -381,6 +433,14 @@ def thread_work(shard, tier, viols, counters, samples, keys, sets):
                     continue
                 if o != want:
                     s = specs[cid]
+                    # the module walk racing with package imports is a recorded CPython import-lock cycle: in the
+                    # trial family that provokes it, failed or None resolutions are that finding, a wrong module
+                    # list is not
+                    if o == ['exc', '_DeadlockError'] or (walk_family and s['func'] == 'get_cc_module_name' and (o[0] == 'exc' or o == ['ok', None])):
+                        add(viols, 'C13|threads|import-deadlock-error',
+                            '%d threads from a cold start: %s.%s(%r) raised importlib._DeadlockError' % (n, s['module'], s['func'], s['args']),
+                            {'kind': 'thread', 'trial': spec, 'call': s})
+                        continue
                     add(viols, 'C13|%s.%s|differs-under-threads' % (s['module'], s['func']),
                         '%d threads from a cold start: %s.%s(%r, %r) gave %r in thread %d, %r alone in a fresh interpreter' % (
                             n, s['module'], s['func'], s['args'], s.get('kwargs', {}), o, ti, want),
@@ -413,6 +473,9 @@ def work(shard, tier):
 def finish(agg, tier):
     inc = []
     c = agg['counters']
+    if c.get('thread_trials_failed_to_report', 0) or c.get('thread_trials_timed_out', 0):
+        inc.append('%d thread trials failed to report, %d timed out: %s' % (c.get('thread_trials_failed_to_report', 0),
+                   c.get('thread_trials_timed_out', 0), list(agg['sets'].get('trial_errors', ()))[:2]))
     if c.get('thread_trials', 0) < 5:
         inc.append('fewer than 5 thread trials reported (%d); errors: %s' % (c.get('thread_trials', 0), list(agg['sets'].get('trial_errors', ()))[:2]))
     if c.get('trials_with_overlapping_cold_loads', 0) < 1:
